@@ -1083,6 +1083,15 @@ func oracleC20(r *Rng, n int, thorough bool, seeds []string) *OracleResult {
 			}
 		}
 	}
+	{
+		// the same, on ONE value shared by all goroutines (in a child process: a read
+		// that writes a map ends with a runtime fatal error nobody can recover from)
+		res.Evaluations++
+		res.Tags["shared-value-read-concurrently"]++
+		if w := runProbe("shared-encode", 60*time.Second); w != "" {
+			res.fail(Failure{Oracle: "c20", Input: "probe shared-encode workers=8 rounds=6000", What: w, Class: "shared-value-read-concurrently"})
+		}
+	}
 	for i := 0; i < n; i++ {
 		// every kind in turn, so that small n still covers every type
 		kind := roKinds[i%len(roKinds)]
